@@ -23,7 +23,12 @@ RULE = ('sets of 2-6 of 13 chemicals with functional groups (+ N2 / CO2 without)
         'models (with a Psats array) in every case. Value reference: every evaluated (x, T) of the three group models (first state, second state, activity_coefficients()) against '
         'thermo.unifac.UNIFAC.from_subgroups with thermo\'s own tables on the renormalised sub-composition of the group-bearing members (1e-12 relative); Gibbs-Duhem also with Richardson '
         'extrapolation (steps eps, eps/2) bounded by the rounding of the difference quotient; Gibbs-Duhem cases whose largest term is below the resolution are counted as gd:unresolved:*, not as held. '
-        'non-trivial = >=2 chemicals with groups and a non-ideal value (|gamma-1|>1e-6) observed; distinct = hash of the case')
+        'non-trivial = >=2 chemicals with groups and a non-ideal value (|gamma-1|>1e-6) observed; distinct = hash of the case. '
+        'Added (round 6): two more chemical pools judged by every clause above - wide-pool: 50 more named chemicals whose assignments hold the structural subgroups the first 13 lack (quaternary carbon C / CY-C / c-C with '
+        'surface parameter Q = 0, CH, cyclic, olefinic, substituted aromatic carbon, ethers, amines, nitriles, halogenated and single-group molecules; NIST by name) mixed with the first 13; assigned-groups: blank chemicals '
+        'with assignments drawn from the whole subgroup vocabulary of the reference tables (1-4 subgroups, counts 1-6, main-group pairs without interaction parameters included), assigned by name, by name in two '
+        'accumulating calls (reset=False) or by subgroup id, with twin members (same assignment, different chemical object: equal coefficients); call forms: evaluation under numpy\'s ignore error state (the state of '
+        'the compiled form) judged against the reference and bit-identical to the default-state value, integer / numpy temperature. Keys of the new pools carry <class>/<pool>[/zero-area-group].')
 MIN_NONTRIVIAL = {'quick': 300, 'thorough': 10000}
 ASSUMPTIONS = ['Gibbs-Duhem is evaluated by central differences with step 1e-3*min(x) along zero-sum directions; bound 1e-4 of the largest term + 1e-7 (nearly ideal mixtures have terms of 1e-7 and finite-difference noise of a few 1e-9); '
                'the Richardson combination (4 S(eps/2) - S(eps))/3 removes the eps^2 truncation term (which alone reaches 8e-6 of the largest term) and is bounded by 1e-7 of the largest term + 1000*2.2e-16/eps '
@@ -31,7 +36,11 @@ ASSUMPTIONS = ['Gibbs-Duhem is evaluated by central differences with step 1e-3*m
                'the models named UNIFAC / Dortmund / NIST are the published ones: the values are compared with the implementation and the parameter tables of the external package thermo (version 0, version 1, '
                'version 1 with NISTUFSG/NISTUFIP), which the harness pins to three literal values (water/ethanol) when it is imported; members without groups are left out and the rest renormalised (documented behaviour)',
                'vertex normalisation, permutation equivariance and the value reference are bounded by 1e-12 relative (observed worst over 60000 cases 2.9e-15 / 1.1e-14 / 1.1e-14: rounding of the group sums in another order)',
-               'NIST groups are assigned by name; the six names used are looked up in thermo\'s NIST table to obtain the subgroup ids the reference uses (a KeyError of the library for a name that table does not hold would be a refusal; any other failure is a violation)']
+               'NIST groups are assigned by name; the six names used are looked up in thermo\'s NIST table to obtain the subgroup ids the reference uses (a KeyError of the library for a name that table does not hold would be a refusal; any other failure is a violation)',
+               'assigned-groups pool: the vocabulary is every subgroup name that is unambiguous in thermo\'s table of the class, minus the ionic-liquid groups and the groups of later table revisions (their published R / Q '
+               'differ between table versions: not decidable here); every drawn molecule holds at least one subgroup with Q > 0 (a molecule of zero surface area has no combinatorial term); counts <= 6, <= 4 subgroups per molecule',
+               'a model value does not depend on numpy\'s floating point error state: the value under errstate(all=ignore) - the behaviour of the compiled (numba) form, which cannot raise - is judged like any other value',
+               'an integer (or numpy float64) temperature denotes the same temperature as the equal Python float']
 WITH = ('Water', 'Ethanol', 'Methanol', 'Propanol', 'Butanol', 'Hexane', 'Heptane', 'Octane', 'Benzene', 'Toluene', 'Acetone', 'EthylAcetate', 'AceticAcid')
 WITHOUT = ('N2', 'CO2')
 NIST_GROUPS = {'Water': {'H2O': 1}, 'Ethanol': {'CH3': 1, 'CH2': 1, 'OH prim': 1}, 'Propanol': {'CH3': 1, 'CH2': 2, 'OH prim': 1}, 'Butanol': {'CH3': 1, 'CH2': 3, 'OH prim': 1},
@@ -41,8 +50,37 @@ GROUP_CLASSES = ('UNIFAC', 'Dortmund', 'NIST')
 VALUE_RTOL = 1e-12          # observed worst difference to the reference 1.1e-14 over 60000 cases (all kinds, present and absent members)
 U = 2.2e-16
 
+# ---- added pools (round 6) -----------------------------------------------------------------------------------------------------------------------------
+# wide-pool: named chemicals whose (database) assignments hold the structural subgroups the first 13 lack; every one has UNIFAC and Dortmund groups
+WIDE = ('tert-butanol', 'MTBE', 'neopentane', '2,2-dimethylbutane', 'isooctane', 'tert-butylbenzene', 'pinacolone', 'neopentyl glycol', '2,2-dimethylpropanoic acid', 'tert-butyl acetate', 'ETBE',
+        '1,1-dimethylcyclohexane',                                                                                       # quaternary carbon (C / CY-C: surface parameter Q = 0)
+        'isobutane', 'isopropanol', '2-methylpentane', 'isobutanol', 'cyclohexane', 'methylcyclohexane', 'cyclohexanol', '1-hexene', 'ethylbenzene', 'cumene', 'styrene', 'phenol', 'naphthalene',
+        'diethyl ether', 'tetrahydrofuran', 'dimethyl ether', '2-butanone', 'acetaldehyde', 'methyl acetate', 'butyl acetate', 'formic acid', 'propionic acid', 'acetonitrile', 'diethylamine', 'triethylamine',
+        'aniline', 'pyridine', 'N,N-dimethylformamide', 'chloroform', 'dichloromethane', 'carbon tetrachloride', 'chlorobenzene', '1,2-dichloroethane', 'dimethyl sulfoxide', 'carbon disulfide',
+        'ethylene glycol', 'glycerol', 'furfural', '1,4-dioxane', 'tert-butyl chloride')
+NIST_WIDE = {'tert-butanol': {'CH3': 3, 'C': 1, 'OH tert': 1}, 'MTBE': {'CH3': 3, 'C': 1, 'CH3O': 1}, 'neopentane': {'CH3': 4, 'C': 1}, '2,2-dimethylbutane': {'CH3': 4, 'CH2': 1, 'C': 1},
+             'isooctane': {'CH3': 5, 'CH2': 1, 'CH': 1, 'C': 1}, 'tert-butylbenzene': {'CH3': 3, 'C': 1, 'ACH': 5, 'AC': 1}, 'pinacolone': {'CH3': 3, 'C': 1, 'CH3CO': 1},
+             '1,1-dimethylcyclohexane': {'CH3': 2, 'c-CH2': 5, 'c-C': 1}, 'isopropanol': {'CH3': 2, 'CH': 1, 'OH sec': 1}, 'cyclohexane': {'c-CH2': 6}, 'methylcyclohexane': {'CH3': 1, 'c-CH2': 5, 'c-CH': 1},
+             'Benzene': {'ACH': 6}, 'Toluene': {'ACH': 5, 'ACCH3': 1}, 'ethylbenzene': {'CH3': 1, 'ACH': 5, 'ACCH2': 1}, 'diethyl ether': {'CH3': 2, 'CH2': 1, 'CH2O': 1},
+             '2-butanone': {'CH3': 1, 'CH2': 1, 'CH3CO': 1}, 'methyl acetate': {'CH3': 1, 'CH3COO': 1}, 'EthylAcetate': {'CH3': 1, 'CH2': 1, 'CH3COO': 1}, 'AceticAcid': {'CH3': 1, 'COOH': 1},
+             'acetonitrile': {'CH3CN': 1}, 'chloroform': {'CHCl3': 1}, 'dimethyl sulfoxide': {'DMSO': 1}, '1-hexene': {'CH3': 1, 'CH2': 3, 'CH2=CH': 1}, 'triethylamine': {'CH3': 3, 'CH2': 2, 'CH2N': 1}}
+NIST_ALL = dict(NIST_GROUPS); NIST_ALL.update(NIST_WIDE)
+# assigned-groups: the most common subgroups (drawn more often; the rest of a draw comes from the whole vocabulary of the reference table)
+COMMON = {'UNIFAC': ('CH3', 'CH2', 'CH', 'C', 'OH', 'ACH', 'AC', 'ACCH3', 'CH3CO', 'CH2O', 'CH3COO', 'COOH', 'H2O', 'CH2=CH'),
+          'Dortmund': ('CH3', 'CH2', 'CH', 'C', 'CY-CH2', 'CY-CH', 'CY-C', 'OH(P)', 'OH(S)', 'OH(T)', 'ACH', 'AC', 'CH3CO', 'CH2O', 'CH3COO', 'COOH', 'H2O'),
+          'NIST': ('CH3', 'CH2', 'CH', 'C', 'c-CH2', 'c-CH', 'c-C', 'OH prim', 'OH sec', 'OH tert', 'ACH', 'AC', 'CH3CO', 'CH2O', 'CH3COO', 'COOH', 'H2O')}
+# ionic-liquid groups and groups of later table revisions: published R / Q differ between table versions (not decidable here), or the name is newer than the library's table;
+# names whose spelling differs between table editions (the library spells subgroup 73 'HCON(..' as the DDBST list prints it, and two NIST names with a trailing blank): a KeyError for them decides nothing
+NOT_IN_VOCABULARY = {'UNIFAC': ('IMIDAZOL', 'BTI', 'HCON(CH2)2'),
+                     'Dortmund': ('C3H2N2+', 'C3H3N2+', 'C4H8N+', 'BF4-', 'C5H5N+', 'OTF-', 'C5H4N+', 'SO4', 'HSO4', 'PF6', 'BTI-', 'HCONHCH3', 'HCONHCH2', 'HCON(CH2)2'),
+                     'NIST': ('CH=NOH', 'CH2(O)2', 'CH(O)2', 'AC-O-CO-CH3', 'CH2SuCH')}
+FORMS = ('by-name', 'incremental', 'by-id')
+KINDS = ('vertex', 'near-vertex', 'trace', 'interior', 'interior', 'interior', 'face')
+
 _chems = {}
 _nist = {}
+_spec = {}          # label of an assigned-groups member -> {'groups': [[name, count], ...], 'form': ...} (registered from the case before the model is built)
+_assigned = {}      # label -> blank chemical carrying the assignment
 
 # ---- independent value reference -----------------------------------------------------------------------------------------------------------------
 if hasattr(_tu, 'load_unifac_ip'): _tu.load_unifac_ip()
@@ -50,6 +88,45 @@ REF = {'UNIFAC': dict(version=0, interaction_data=_tu.UFIP, subgroups=_tu.UFSG),
        'Dortmund': dict(version=1, interaction_data=_tu.DOUFIP2016, subgroups=_tu.DOUFSG),
        'NIST': dict(version=1, interaction_data=_tu.NISTUFIP, subgroups=_tu.NISTUFSG)}          # NIST-modified UNIFAC (Kang et al. 2015): the Dortmund equations with its own groups and parameters
 _NIST_ID = {sg.group: k for k, sg in _tu.NISTUFSG.items()}
+
+
+def _vocabulary(cls):
+    """{name: subgroup id} of the reference table: names that denote one subgroup only, minus NOT_IN_VOCABULARY."""
+    table = REF[cls]['subgroups']; count = {}
+    for sg in table.values(): count[sg.group] = count.get(sg.group, 0) + 1
+    v = {sg.group: int(k) for k, sg in table.items() if count[sg.group] == 1 and sg.group not in NOT_IN_VOCABULARY[cls]}
+    lost = [k for k in COMMON[cls] if k not in v]
+    if lost: raise RuntimeError(f'harness: the {cls} reference table does not hold the subgroup names {lost}')
+    return v
+
+
+VOCAB_ID = {cls: _vocabulary(cls) for cls in REF}
+VOCAB = {cls: sorted(VOCAB_ID[cls]) for cls in REF}
+for _i, _g in NIST_WIDE.items():
+    if any(k not in VOCAB_ID['NIST'] for k in _g): raise RuntimeError(f'harness: NIST_WIDE[{_i}] uses a name the reference table does not hold: {_g}')
+
+
+def gen_molecule(r, cls):
+    """[[subgroup name, count], ...]: 1-4 distinct subgroups (60 % from the common ones), at least one of them with Q > 0."""
+    table = REF[cls]['subgroups']; names = []
+    for _ in range(r.choice([1, 1, 2, 2, 3, 3, 4])):
+        nm = r.choice(COMMON[cls] if r.random() < 0.6 else VOCAB[cls])
+        if nm not in names: names.append(nm)
+    groups = [[nm, r.choice([1, 1, 1, 2, 2, 3, 4, 6])] for nm in names]
+    if all(table[VOCAB_ID[cls][nm]].Q == 0 for nm in names): groups.append(['CH3', r.choice([1, 2, 3])])
+    return groups
+
+
+def _catalogue(cls, size=150):
+    import random
+    r = random.Random('C16 assigned-groups ' + cls); out = []
+    while len(out) < size:
+        m = gen_molecule(r, cls)
+        if m not in out: out.append(m)
+    return out
+
+
+CATALOGUE = {cls: _catalogue(cls) for cls in REF}          # finite (the chemical objects and the library's per-tuple model cache stay bounded); cases carry the assignment itself
 
 
 def lnq(gp, gm, step):
@@ -66,6 +143,28 @@ def within(a, b, rtol):
         return bool(np.all(np.isfinite(a)) and np.all(np.isfinite(b)) and np.all(np.abs(a - b) <= rtol * np.abs(b)))
 
 
+def within_ln(a, b, rtol):
+    """added pools: all |a - b| <= rtol |b| max(1, |ln b|) - gamma = exp(ln gamma) carries the absolute rounding of ln(gamma), which grows with |ln(gamma)| (recorded: pyridine / cyclohexanol
+    at infinite dilution, Dortmund, ln(gamma) = -368: both implementations give 6.8865279100e-161 and differ by 1.3e-12 relative = 3.5e-15 |ln gamma|). Same as within() for |ln b| <= 1."""
+    a = np.asarray(a, float); b = np.asarray(b, float)
+    if a.shape != b.shape: return False
+    with np.errstate(all='ignore'):
+        if not (np.all(np.isfinite(a)) and np.all(np.isfinite(b)) and np.all(b >= 0)): return False
+        z = b == 0          # exp(ln gamma) underflowed in the reference (ln gamma < -745): zero expected
+        return bool(np.all(a[z] == 0) and np.all(np.abs(a[~z] - b[~z]) <= rtol * b[~z] * np.maximum(1.0, np.abs(np.log(b[~z])))))
+
+
+def relmax_ln(a, b):
+    try:
+        with np.errstate(all='ignore'):
+            a = np.asarray(a, float); b = np.asarray(b, float)
+            nz = b != 0
+            v = float(np.max(np.abs(a[nz] / b[nz] - 1.0) / np.maximum(1.0, np.abs(np.log(b[nz]))))) if nz.any() else 0.0
+        return v if v == v else None
+    except Exception:
+        return None
+
+
 def relmax(a, b):
     """largest |a/b - 1| (recorded residual only); None when it cannot be formed."""
     try:
@@ -78,7 +177,11 @@ def relmax(a, b):
 
 def ref_gammas(cls, groups, xs, T):
     """activity coefficients of the published model, computed by thermo from {subgroup id: count} dicts."""
-    return np.array(_tu.UNIFAC.from_subgroups(T=float(T), xs=[float(v) for v in xs], chemgroups=groups, **REF[cls]).gammas(), float)
+    try:
+        return np.array(_tu.UNIFAC.from_subgroups(T=float(T), xs=[float(v) for v in xs], chemgroups=groups, **REF[cls]).gammas(), float)
+    except (OverflowError, ZeroDivisionError, ValueError):
+        # math.exp / math.log of the reference out of range (added pools: |ln(gamma)| > 709 or psi = 0 with extreme published parameters): the reference has no value to compare with
+        return None
 
 
 def _pin_reference():
@@ -88,7 +191,7 @@ def _pin_reference():
                                   ('Dortmund', [wat, eth], [0.5, 0.5], [1.4749922296583007, 1.2418240954542252]),
                                   ('NIST', [wat, eth], [0.5, 0.5], [1.4794334959559001, 1.2379032263253202])):
         got = ref_gammas(cls, groups, xs, 350.)
-        if not np.allclose(got, want, rtol=1e-12, atol=0): raise RuntimeError(f'harness: the thermo reference for {cls} gives {got.tolist()}, pinned {want}')
+        if got is None or not np.allclose(got, want, rtol=1e-12, atol=0): raise RuntimeError(f'harness: the thermo reference for {cls} gives {got.tolist()}, pinned {want}')
 
 
 _pin_reference()
@@ -96,9 +199,13 @@ _pin_reference()
 
 def groups_of(cls, i, c):
     """{subgroup id: count} of one chemical for the reference; None when the chemical has no assignment. NIST: from the harness's own names through thermo's table."""
+    if i in _spec:
+        out = {}
+        for k, v in _spec[i]['groups']: out[VOCAB_ID[cls][k]] = out.get(VOCAB_ID[cls][k], 0) + int(v)          # assigned-groups member: from the case, through the reference's table
+        return out
     if cls == 'NIST':
-        if i not in NIST_GROUPS: return None
-        return {_NIST_ID[k]: v for k, v in NIST_GROUPS[i].items()}
+        if i not in NIST_ALL: return None
+        return {_NIST_ID[k]: v for k, v in NIST_ALL[i].items()}
     g = getattr(c, cls)
     return {int(k): int(v) for k, v in g.items()} if g else None
 
@@ -109,10 +216,43 @@ def required(tier):
             'value-reference', 'value-reference:UNIFAC', 'value-reference:Dortmund', 'value-reference:NIST', 'value-reference:second-state', 'value-reference:absent-member', 'value-reference:single-group-member',
             'sub-model-method:UNIFAC', 'sub-model-method:Dortmund', 'sub-model-method:NIST',
             'gd:richardson', 'gd:resolved:interior', 'gd:resolved:relative-step/interior', 'gd:resolved:relative-step/face', 'gd:resolved:relative-step/trace', 'gd:resolved:inert-moving',
-            'ambient:activity_coefficients.gamma_modified_UNIFAC']
+            'ambient:activity_coefficients.gamma_modified_UNIFAC',
+            'pool:wide-pool>=800', 'pool:assigned-groups>=500', 'pool:wide-pool:UNIFAC>=100', 'pool:wide-pool:Dortmund>=100', 'pool:wide-pool:NIST>=100',
+            'pool:assigned-groups:UNIFAC>=50', 'pool:assigned-groups:Dortmund>=50', 'pool:assigned-groups:NIST>=50',
+            'feature:zero-area-group>=400', 'feature:zero-area-group:UNIFAC>=50', 'feature:zero-area-group:Dortmund>=50', 'feature:zero-area-group:NIST>=50',
+            'feature:missing-interaction>=100', 'assigned:by-name>=100', 'assigned:incremental>=100', 'assigned:by-id>=100', 'twin-members>=50',
+            'vertex:limit>=30', 'errstate-ignore>=2000', 'value-reference:errstate-ignore>=1500', 'caller-T:int>=1000']
 
 
-def chem(i):
+def assigned_chem(cls, label):
+    """a blank chemical (its own, empty group-count objects) that receives the assignment of the case in one of three forms."""
+    c = _assigned.get(label)
+    if c is None:
+        spec = _spec[label]; groups = [(str(k), int(v)) for k, v in spec['groups']]
+        c = tmo.Chemical.blank(label)
+        gc = getattr(c, cls)
+        if spec['form'] == 'by-name':
+            gc.set_group_counts_by_name(dict(groups))
+        elif spec['form'] == 'incremental':
+            first, second = {}, {}
+            for j, (k, v) in enumerate(groups):
+                if v >= 2: first[k] = v // 2; second[k] = v - v // 2          # the same name in both calls: the counts add up
+                elif j % 2 == 0: first[k] = v
+                else: second[k] = v
+            gc.set_group_counts_by_name(first)
+            gc.set_group_counts_by_name(second, reset=False)
+        else:
+            for k, v in groups: gc[VOCAB_ID[cls][k]] = v                       # by the published subgroup number
+        _assigned[label] = c
+    return c
+
+
+def label_of(cls, groups, form, slot):
+    return 'S' + cls[0] + case_hash([cls, groups, form, slot])
+
+
+def chem(i, cls=None):
+    if i in _spec: return assigned_chem(cls, i)
     c = _chems.get(i)
     if c is None: c = _chems[i] = tmo.Chemical(i, cache=True)
     return c
@@ -123,7 +263,7 @@ def nist_chem(i):
     if c is None:
         c = tmo.Chemical(i, cache=False)
         try:
-            c.NIST.set_group_counts_by_name(NIST_GROUPS[i])
+            c.NIST.set_group_counts_by_name(NIST_ALL[i])
         except Exception as e:
             c = NistFailure(i, e)
         _nist[i] = c
@@ -134,16 +274,16 @@ class NistFailure:
     """set_group_counts_by_name raised: a refusal only for a KeyError on a name that the independent NIST table does not hold either (none of the six names used)."""
     def __init__(self, i, e):
         self.ID = i; self.exc = e
-        self.warranted = isinstance(e, KeyError) and any(k not in _NIST_ID for k in NIST_GROUPS[i])
+        self.warranted = isinstance(e, KeyError) and any(k not in _NIST_ID for k in NIST_ALL[i])
 
 
 def model(cls, ids):
     if cls == 'NIST':
-        cs = [nist_chem(i) if i in NIST_GROUPS else tmo.Chemical(i, cache=True) for i in ids]
+        cs = [assigned_chem(cls, i) if i in _spec else nist_chem(i) if i in NIST_ALL else tmo.Chemical(i, cache=True) for i in ids]
         bad = [c for c in cs if isinstance(c, NistFailure)]
         if bad: return None, bad
     else:
-        cs = [chem(i) for i in ids]
+        cs = [chem(i, cls) for i in ids]
     return getattr(eq, CLASSES[cls])(cs), cs
 
 
@@ -157,7 +297,79 @@ def gen_extras(rng, case, m):
     return case
 
 
+def gen_x(rng, kind, n, m):
+    """composition of the added pools: the kinds of the first pool (n members with groups first, m - n inert ones after them)."""
+    if kind == 'vertex':
+        x = [0.0] * m; x[rng.randrange(n)] = 1.0
+    elif kind == 'near-vertex':
+        k = rng.randrange(n); x = [1e-9 / (m - 1)] * m; x[k] = 1 - 1e-9
+    elif kind == 'trace':
+        x = [10 ** rng.uniform(-12, -3) if rng.random() < 0.5 else rng.random() for _ in range(m)]
+        if not sum(x) > 0: x[0] = 1.0
+    elif kind == 'face':
+        x = [rng.uniform(0.02, 1) for _ in range(m)]
+        if n == 2 and m == 2:
+            x[rng.randrange(n)] = 0.0
+        else:
+            nz = rng.randrange(1, n) if n > 2 else 1
+            for k in rng.sample(range(n), nz): x[k] = 0.0
+    else:
+        x = [rng.uniform(0.02, 1) for _ in range(m)]
+    s = sum(x)
+    return [v / s for v in x]
+
+
+def gen_wide(rng):
+    """sets of named chemicals, at least one from the wide pool."""
+    cls = rng.choice(['UNIFAC', 'Dortmund', 'Dortmund', 'NIST'])
+    wide = [i for i in WIDE if (cls != 'NIST' or i in NIST_ALL)]
+    pool = [i for i in WITH if (cls != 'NIST' or i in NIST_ALL)] + wide
+    n = rng.randrange(2, 7)
+    ids = rng.sample(pool, n)
+    if not any(i in wide for i in ids):
+        ids[rng.randrange(n)] = rng.choice(wide)
+    extra = [i for i in WITHOUT if rng.random() < 0.2]
+    kind = rng.choice(KINDS)
+    m = n + len(extra)
+    x = gen_x(rng, kind, n, m)
+    d = [rng.uniform(-1, 1) for _ in range(m)]; mean = sum(d) / m; d = [v - mean for v in d]
+    return gen_extras(rng, {'cls': cls, 'ids': ids, 'extra': extra, 'kind': kind, 'x': x, 'T': round(rng.uniform(250, 450), 2), 'd': d, 'pseed': rng.randrange(10 ** 6), 'pool': 'wide-pool'}, m)
+
+
+def gen_assigned(rng):
+    """sets of blank chemicals with assignments from the catalogue of the class; one in four sets holds a twin (the assignment of another member, given in another form)."""
+    cls = rng.choice(['UNIFAC', 'Dortmund', 'Dortmund', 'NIST'])
+    n = rng.randrange(2, 6)
+    picks = rng.sample(range(len(CATALOGUE[cls])), n)
+    forms = [rng.choice(FORMS) for _ in range(n)]
+    twin = None
+    if rng.random() < 0.25:
+        a, b = rng.sample(range(n), 2)
+        picks[b] = picks[a]; forms[b] = rng.choice([f for f in FORMS if f != forms[a]]); twin = [a, b]
+    ids, assigned = [], {}
+    for k in range(n):
+        groups = [list(g) for g in CATALOGUE[cls][picks[k]]]
+        label = label_of(cls, groups, forms[k], 0)
+        ids.append(label); assigned[label] = {'groups': groups, 'form': forms[k]}
+    extra = [i for i in WITHOUT if rng.random() < 0.15]
+    kind = rng.choice(KINDS)
+    m = n + len(extra)
+    x = gen_x(rng, kind, n, m)
+    d = [rng.uniform(-1, 1) for _ in range(m)]; mean = sum(d) / m; d = [v - mean for v in d]
+    case = {'cls': cls, 'ids': ids, 'extra': extra, 'kind': kind, 'x': x, 'T': round(rng.uniform(250, 450), 2), 'd': d, 'pseed': rng.randrange(10 ** 6), 'pool': 'assigned-groups', 'assigned': assigned}
+    if twin: case['twin'] = twin
+    return gen_extras(rng, case, m)
+
+
 def gen_case(rng):
+    r = rng.random()
+    case = gen_wide(rng) if r < 0.22 else gen_assigned(rng) if r < 0.36 else gen_base(rng)
+    case['es'] = rng.random() < 0.5            # also evaluated under numpy's ignore error state
+    case['Tk'] = rng.random() < 0.3            # also evaluated at an integer / numpy temperature
+    return case
+
+
+def gen_base(rng):
     cls = rng.choice(['UNIFAC', 'Dortmund', 'Dortmund', 'NIST', 'Ideal'])
     pool = [i for i in WITH if (cls != 'NIST' or i in NIST_GROUPS)]
     if rng.random() < 0.04:
@@ -207,6 +419,9 @@ def run_case(case, rec):
     cls = case['cls']; ids = list(case['ids']) + list(case['extra'])
     n = len(case['ids'])
     T = case['T']
+    pool = case.get('pool', 'base')
+    for label, spec in sorted((case.get('assigned') or {}).items()):
+        _spec[label] = spec; rec.hit('assigned:' + spec['form'])
     try:
         G, cs = model(cls, ids)
     except Exception as e:
@@ -214,16 +429,23 @@ def run_case(case, rec):
     if G is None:
         for b in cs:
             if b.warranted: rec.refuse('NIST group names not available')
-            else: rec.exception('construct', b.exc, what=f'{b.ID}.NIST.set_group_counts_by_name({NIST_GROUPS[b.ID]}) raised {type(b.exc).__name__}: {b.exc} (every name is a subgroup of the NIST table)')
+            else: rec.exception('construct', b.exc, what=f'{b.ID}.NIST.set_group_counts_by_name({NIST_ALL[b.ID]}) raised {type(b.exc).__name__}: {b.exc} (every name is a subgroup of the NIST table)')
         return
-    tag = cls
+    # keys of the added pools name the pool and the structural class of the assignments (first pool: the class alone, as before)
+    feat = features(case, rec, cls, ids, cs, n)
+    tag = cls if pool == 'base' else f'{cls}/{pool}{feat}'
+    wp = '' if pool == 'base' else f'{pool}{feat}/'
     rec.hit('model:' + cls)
+    if pool != 'base': rec.hit('pool:' + pool); rec.hit(f'pool:{pool}:{cls}')
     x = np.array(case['x'], float)
     x0 = x.copy()
+    gi = errstate_ignore(case, rec, G, cs, cls, ids, n, T, tag, wp) if case.get('es') else None
     try:
         g = np.asarray(G(x, T), float)
     except Exception as e:
-        rec.exception('call', e, what=f'{cls}({ids})(x, {T}) raised {type(e).__name__}: {str(e)[:150]}'); return
+        rec.exception('call' if pool == 'base' else f'call:{pool}{feat.replace("/", ":")}', e, what=f'{cls}({ids})(x, {T}) raised {type(e).__name__}: {str(e)[:150]}'); return
+    if gi is not None:
+        rec.check(gi.shape == g.shape and gi.tobytes() == g.tobytes(), 'repeatable', f'{tag}/errstate-ignore', f'{cls}({ids})(x, {T}) = {g.tolist()} but {gi.tolist()} under numpy.errstate(all="ignore")')
     # (6) caller's composition untouched, bit for bit
     rec.check(x.tobytes() == x0.tobytes(), 'x-unchanged', tag, f'{cls} model modified the composition array passed by the caller: {x0.tolist()} -> {x.tolist()}')
     x = x0.copy()
@@ -235,8 +457,9 @@ def run_case(case, rec):
         rec.exception('functional-form', e, what=f'{cls}.f raised {type(e).__name__}: {e}')
     # (0) value of the published model (independent implementation and tables)
     if cls in GROUP_CLASSES:
-        value_reference(case, rec, cls, ids, cs, n, x, T, g, case['kind'])
-    extra_clauses(case, rec, G, cs, cls, ids, n, T, g)
+        value_reference(case, rec, cls, ids, cs, n, x, T, g, wp + case['kind'])
+    extra_clauses(case, rec, G, cs, cls, ids, n, T, g, tag, wp)
+    added_call_forms(case, rec, G, cls, ids, n, T, g, tag)
     if cls == 'Ideal':
         rec.check(np.all(g == 1.0), 'ideal-models', 'gamma', f'ideal activity coefficients {g.tolist()}')
         try:
@@ -264,7 +487,10 @@ def run_case(case, rec):
     # (1) normalisation at the vertices
     if case['kind'] in ('vertex', 'near-vertex') or (x.max() == 1.0 and int(np.argmax(x)) < n):
         k = int(np.argmax(x))
-        rec.check(abs(g[k] - 1.0) <= 1e-12, 'vertex', tag, f'gamma of {ids[k]} at x={x[k]!r} is {g[k]!r}, not 1', residual=abs(g[k] - 1.0))
+        if pool != 'base' and x[k] < 1.0:
+            vertex_limit(rec, G, ids, x, T, k, g, tag)
+        else:
+            rec.check(abs(g[k] - 1.0) <= 1e-12, 'vertex', tag, f'gamma of {ids[k]} at x={x[k]!r} is {g[k]!r}, not 1', residual=abs(g[k] - 1.0))
     # (2) Gibbs-Duhem on interior points
     if case['kind'] == 'interior' and n >= 2:
         d = np.array(case['d'], float)
@@ -275,8 +501,9 @@ def run_case(case, rec):
             dln = lnq(gp, gm, 2 * eps)
             terms = x * dln
             res = abs(terms.sum()); scale = np.abs(terms).max()
-            gd_judge(rec, res <= 1e-4 * scale + 1e-7, scale, 1e-7, 'gibbs-duhem', tag, 'interior', f'sum x_i dln(gamma_i)/ds = {terms.sum()!r} with largest term {scale!r} (x={x.tolist()}, T={T})', res / max(scale, 1e-300))
-            gd_richardson(rec, G, x, d, eps, T, None, terms.sum(), scale, tag, 'interior')
+            s2h, slack = half_step(pool, G, x, d, eps, T, None, terms.sum())
+            gd_judge(rec, res <= 1e-4 * scale + 1e-7 + slack, scale, 1e-7, 'gibbs-duhem', tag, 'interior', f'sum x_i dln(gamma_i)/ds = {terms.sum()!r} with largest term {scale!r} (x={x.tolist()}, T={T})', res / max(scale, 1e-300))
+            gd_richardson(rec, G, x, d, eps, T, None, terms.sum(), scale, tag, 'interior', s2h)
         except Exception as e:
             rec.exception('gibbs-duhem', e, what=f'{cls} raised {type(e).__name__} near an interior point: {e}')
     # (2b) Gibbs-Duhem with relative steps x_i -> x_i (1 +- eps (u_i - ubar)): resolves trace, near-vertex and face compositions
@@ -293,9 +520,10 @@ def run_case(case, rec):
             dln = lnq(gp[present], gm[present], 2 * eps)
             terms = x[present] * dln
             res = abs(terms.sum()); scale = np.abs(terms).max()
-            gd_judge(rec, res <= 1e-4 * scale + 1e-7, scale, 1e-7, 'gibbs-duhem', f'{tag}/relative-step/{case["kind"]}', f'relative-step/{case["kind"]}',
+            s2h, slack = half_step(pool, G, x, d, eps, T, present, terms.sum())
+            gd_judge(rec, res <= 1e-4 * scale + 1e-7 + slack, scale, 1e-7, 'gibbs-duhem', f'{tag}/relative-step/{case["kind"]}', f'relative-step/{case["kind"]}',
                      f'sum x_i dln(gamma_i)/ds = {terms.sum()!r} with largest term {scale!r} along a relative step (x={x.tolist()}, T={T})', res / max(scale, 1e-300))
-            gd_richardson(rec, G, x, d, eps, T, present, terms.sum(), scale, f'{tag}/relative-step/{case["kind"]}', f'relative-step/{case["kind"]}')
+            gd_richardson(rec, G, x, d, eps, T, present, terms.sum(), scale, f'{tag}/relative-step/{case["kind"]}', f'relative-step/{case["kind"]}', s2h)
             rec.hit('gd:relative-step')
         except Exception as e:
             rec.exception('gibbs-duhem', e, what=f'{cls} raised {type(e).__name__} near a {case["kind"]} point: {e}')
@@ -308,9 +536,10 @@ def run_case(case, rec):
             dln = lnq(gp, gm, 2 * eps)
             terms = x * dln
             res = abs(terms.sum()); scale = np.abs(terms).max()
-            gd_judge(rec, res <= 1e-4 * scale + 1e-7, scale, 1e-7, 'gibbs-duhem', f'{tag}/inert-moving', 'inert-moving',
+            s2h, slack = half_step(pool, G, x, d, eps, T, None, terms.sum())
+            gd_judge(rec, res <= 1e-4 * scale + 1e-7 + slack, scale, 1e-7, 'gibbs-duhem', f'{tag}/inert-moving', 'inert-moving',
                      f'sum x_i dln(gamma_i)/ds = {terms.sum()!r} with largest term {scale!r}, inert members moving (x={x.tolist()}, d={d.tolist()}, T={T})', res / max(scale, 1e-300))
-            gd_richardson(rec, G, x, d, eps, T, None, terms.sum(), scale, f'{tag}/inert-moving', 'inert-moving')
+            gd_richardson(rec, G, x, d, eps, T, None, terms.sum(), scale, f'{tag}/inert-moving', 'inert-moving', s2h)
             rec.hit('gd:inert-moving')
         except Exception as e:
             rec.exception('gibbs-duhem', e, what=f'{cls} raised {type(e).__name__} near an interior point (inert members moving): {e}')
@@ -335,6 +564,94 @@ def run_case(case, rec):
     if np.abs(g[:n] - 1).max() > 1e-6: rec.mark_nontrivial(case_hash(case))
 
 
+def features(case, rec, cls, ids, cs, n):
+    """structural class of the assignments of the set, read from the reference's tables: '/zero-area-group' when a member holds a subgroup whose surface parameter Q is zero
+    (quaternary carbon); reach counters for it and for sets with a pair of main groups that has no interaction parameters (psi = 1 by default)."""
+    if cls not in GROUP_CLASSES: return ''
+    table = REF[cls]['subgroups']; ip = REF[cls]['interaction_data']
+    zero = False; mains = []
+    for k in range(n):
+        try:
+            gr = groups_of(cls, ids[k], cs[k])
+        except Exception:
+            gr = None
+        for gid in (gr or ()):
+            sg = table.get(gid)
+            if sg is None: continue
+            if sg.Q == 0: zero = True
+            if sg.main_group_id not in mains: mains.append(sg.main_group_id)
+    if zero: rec.hit('feature:zero-area-group'); rec.hit('feature:zero-area-group:' + cls)
+    if any(a != b and b not in (ip.get(a) or {}) for a in mains for b in mains): rec.hit('feature:missing-interaction'); rec.hit('feature:missing-interaction:' + cls)
+    if len(mains) == 1: rec.hit('feature:one-main-group')
+    return '/zero-area-group' if zero else ''
+
+
+def vertex_limit(rec, G, ids, x, T, k, g, tag):
+    """near a vertex, added pools: their assignments reach parameter regions where psi practically vanishes (the published tables hold placeholders such as a(ACOH, CCl4) = 10000 K; arbitrary
+    assignments meet large Dortmund b, c terms). There the quadratic regime of ln(gamma) starts only below 1 - x ~ psi and the coefficient of the main member is 1 + c (1 - x) at 1 - x = 1e-9
+    (c = 0.3 for CCl4 with traces of phenol and DMSO, UNIFAC; the reference gives the same value), so 1e-12 at 1 - x = 1e-9 is not implied by 'tends to one'. Judged instead: exactly one at the
+    vertex itself, and the distance from one at 1 - x = 1e-9 is below 1e-12, or at most 1e-2 of the distance at 1 - x = 1e-6 on the same ray, or at most 1000 (1 - x)."""
+    e = np.zeros(len(x)); e[k] = 1.0
+    far = e + (x - e) * 1e3
+    try:
+        gv = np.asarray(G(e.copy(), T), float); gfar = np.asarray(G(far.copy(), T), float)
+    except Exception as ex:
+        rec.exception('vertex', ex, what=f'{tag} raised {type(ex).__name__} on the ray towards the vertex of {ids[k]}: {str(ex)[:150]}'); return
+    rec.check(abs(gv[k] - 1.0) <= 1e-12, 'vertex', f'{tag}/limit/at-vertex', f'gamma of {ids[k]} at its vertex is {gv[k]!r}, not 1', residual=abs(gv[k] - 1.0))
+    near, farther = abs(g[k] - 1.0), abs(gfar[k] - 1.0)
+    rec.check(bool(near <= 1e-12 or near <= 1e-2 * farther or near <= 1e3 * (1.0 - x[k])), 'vertex', f'{tag}/limit/approach', f'gamma of {ids[k]} does not tend to one: {g[k]!r} at x={x[k]!r} and {gfar[k]!r} at x={far[k]!r} (T={T})')
+    rec.hit('vertex:limit')
+
+
+def errstate_ignore(case, rec, G, cs, cls, ids, n, T, tag, wp):
+    """the model evaluated under numpy's ignore error state (the compiled form of the functional form cannot raise: a division by zero that raises here gives inf / nan there and whatever
+    the code makes of it): the value is judged against the reference like any other; returned for the bit comparison with the value of the default state."""
+    x = np.array(case['x'], float)
+    try:
+        with np.errstate(all='ignore'):
+            gi = np.asarray(G(x, T), float)
+            gf = np.asarray(G.f(x.copy(), T, *G.args), float)
+    except Exception as e:
+        rec.exception('errstate-ignore', e, what=f'{cls}({ids})(x, {T}) under numpy.errstate(all="ignore") raised {type(e).__name__}: {str(e)[:150]}'); return None
+    rec.hit('errstate-ignore')
+    rec.check(x.tobytes() == np.array(case['x'], float).tobytes(), 'x-unchanged', f'{tag}/errstate-ignore', f'{cls} model modified the composition array passed by the caller (numpy error state: ignore)')
+    rec.check(gf.shape == gi.shape and gf.tobytes() == gi.tobytes() or (gf.ndim == 0 and np.all(gi == gf)), 'functional-form', f'{tag}/errstate-ignore',
+              f'under numpy.errstate(all="ignore") Gamma.f(x,T,*args) = {gf.tolist()} differs from Gamma(x,T) = {gi.tolist()}')
+    if cls in GROUP_CLASSES:
+        value_reference(case, rec, cls, ids, cs, n, x, T, gi, wp + 'errstate-ignore/' + case['kind'])
+        rec.hit('value-reference:errstate-ignore')
+    else:
+        rec.check(gi.shape == (len(ids),) and np.all(gi == 1.0), 'ideal-models', 'gamma/errstate-ignore', f'ideal activity coefficients {gi.tolist()} under numpy.errstate(all="ignore")')
+    return gi
+
+
+def added_call_forms(case, rec, G, cls, ids, n, T, g, tag):
+    """twin members (the same assignment on two chemical objects) and temperature argument kinds."""
+    x = np.array(case['x'], float)
+    # (3b) two members with the same assignment: the coefficient depends on the assignment and on the mixture only (exchanging the two leaves the mixture as it is)
+    tw = case.get('twin')
+    if tw:
+        a, b = tw
+        ok = bool(np.isfinite(g[a]) and np.isfinite(g[b]) and abs(g[a] - g[b]) <= 1e-12 * abs(g[b]))
+        rec.check(ok, 'permutation', f'{tag}/twin-members', f'members {a} and {b} of {ids} carry the same assignment {case["assigned"][ids[a]]["groups"]} but gamma = {g[a]!r} / {g[b]!r} (x={x.tolist()}, T={T})',
+                  residual=abs(g[a] / g[b] - 1) if ok else None)
+        rec.hit('twin-members')
+    # (7c) the same temperature as an int / numpy float64 / 0-d array
+    if case.get('Tk'):
+        Ti = int(round(T))
+        try:
+            want = np.asarray(G(x.copy(), float(Ti)), float)
+            for kind, Tv in (('int', Ti), ('numpy-float64', np.float64(Ti)), ('numpy-int64', np.int64(Ti))):
+                got = np.asarray(G(x.copy(), Tv), float)
+                gotf = np.asarray(G.f(x.copy(), Tv, *G.args), float)
+                rec.check(got.shape == want.shape and got.tobytes() == want.tobytes(), 'functional-form', f'{tag}/temperature:{kind}', f'Gamma(x, {Tv!r}) = {got.tolist()} differs from Gamma(x, {float(Ti)!r}) = {want.tolist()}')
+                rec.check((gotf.shape == want.shape and gotf.tobytes() == want.tobytes()) or (gotf.ndim == 0 and np.all(want == gotf)), 'functional-form', f'{tag}/f/temperature:{kind}',
+                          f'Gamma.f(x, {Tv!r}, *args) = {gotf.tolist()} differs from Gamma(x, {float(Ti)!r}) = {want.tolist()}')
+            rec.hit('caller-T:int')
+        except Exception as e:
+            rec.exception('functional-form', e, what=f'{cls} at an integer / numpy temperature raised {type(e).__name__}: {str(e)[:150]}')
+
+
 def gd_judge(rec, ok, scale, floor, clause, key, label, what, residual):
     """a Gibbs-Duhem sum over its bound is a violation; one within it counts as held only when the absolute floor of the bound is below 1 % of the largest term
     (nearly ideal sets, trace and near-vertex compositions have terms below the rounding of the difference quotient: counted gd:unresolved:*, not held)."""
@@ -347,12 +664,25 @@ def gd_judge(rec, ok, scale, floor, clause, key, label, what, residual):
         rec.hit(('gd:unresolved:' if clause == 'gibbs-duhem-richardson' else 'gd:unresolved-plain:') + label)
 
 
-def gd_richardson(rec, G, x, d, eps, T, sel, s1, scale, key, label):
-    """second central difference with half the step; (4 S(eps/2) - S(eps))/3 has no eps^2 term: what is left is the rounding of ln(gamma) divided by eps."""
+def half_step_sum(G, x, d, eps, T, sel):
     h = eps / 2
     gp = np.asarray(G((x + h * d).copy(), T), float); gm = np.asarray(G((x - h * d).copy(), T), float)
     dln = lnq(gp, gm, 2 * h)
-    s2 = float((x * dln).sum() if sel is None else (x[sel] * dln[sel]).sum())
+    return float((x * dln).sum() if sel is None else (x[sel] * dln[sel]).sum())
+
+
+def half_step(pool, G, x, d, eps, T, sel, s1):
+    """added pools: the eps^2 truncation term of the plain central difference is not bounded by a fraction of the largest first-order term (sets near an extremum of ln(gamma): 6.5e-4 of
+    it among 16000 interior cases of the assigned-groups pool, 1.8e-4 in the wide pool), so the plain bound is widened by twice the measured difference to the half-step sum (the truncation term
+    is 4/3 of that difference; a sum that does not vanish keeps its value at both steps and stays over the bound). First pool: nothing added, bound as before."""
+    if pool == 'base': return None, 0.0
+    s2 = half_step_sum(G, x, d, eps, T, sel)
+    return s2, 2.0 * abs(float(s1) - s2)
+
+
+def gd_richardson(rec, G, x, d, eps, T, sel, s1, scale, key, label, s2=None):
+    """second central difference with half the step; (4 S(eps/2) - S(eps))/3 has no eps^2 term: what is left is the rounding of ln(gamma) divided by eps."""
+    if s2 is None: s2 = half_step_sum(G, x, d, eps, T, sel)
     R = abs((4 * s2 - s1) / 3)
     floor = 1000 * U / eps
     bound = 1e-7 * scale + floor
@@ -378,8 +708,11 @@ def value_reference(case, rec, cls, ids, cs, n, x, T, g, where):
         rec.hit('value-reference:undefined/no-group-member-present'); return       # 0/0 sub-composition: the published model has no value there
     xsub = x[:n] / xs
     r = ref_gammas(cls, groups, xsub, T)
-    ok = g.shape == (len(ids),) and within(g[:n], r, VALUE_RTOL)
-    res = relmax(g[:n], r) if g.shape == (len(ids),) else None
+    if r is None:
+        rec.hit('value-reference:reference-out-of-range'); return
+    base = case.get('pool', 'base') == 'base'
+    ok = g.shape == (len(ids),) and (within if base else within_ln)(g[:n], r, VALUE_RTOL)
+    res = (relmax if base else relmax_ln)(g[:n], r) if g.shape == (len(ids),) else None
     rec.check(ok, 'value-reference', f'{cls}/{where}', f'{cls}({ids})(x={np.asarray(x).tolist()}, T={T}) = {g.tolist()} but the published model (thermo.unifac, groups {groups}) gives {r.tolist()} for the members with groups',
               residual=res)
     rec.hit('value-reference:' + cls)
@@ -387,9 +720,9 @@ def value_reference(case, rec, cls, ids, cs, n, x, T, g, where):
     return r
 
 
-def extra_clauses(case, rec, G, cs, cls, ids, n, T, g):
+def extra_clauses(case, rec, G, cs, cls, ids, n, T, g, tag=None, wp=''):
     """added clauses that apply to every model class: caller array kinds, re-evaluation, sub-model method, ideal fugacity / Poynting."""
-    tag = cls
+    tag = tag or cls
     x = np.array(case['x'], float)
     m = len(x)
     same = lambda a: (np.array_equal(np.asarray(a, float), g) or (np.ndim(a) == 0 and np.all(g == a)))
@@ -431,7 +764,7 @@ def extra_clauses(case, rec, G, cs, cls, ids, n, T, g):
             x2 = np.array(case['x2'], float)
             g2nd = G(x2, case['T2'])
             if cls in GROUP_CLASSES:
-                value_reference(case, rec, cls, ids, cs, n, np.array(case['x2'], float), case['T2'], g2nd, 'second-state')
+                value_reference(case, rec, cls, ids, cs, n, np.array(case['x2'], float), case['T2'], g2nd, wp + 'second-state')
                 rec.check(x2.tobytes() == np.array(case['x2'], float).tobytes(), 'x-unchanged', f'{tag}/second-state', f'{cls} model modified the composition array of the intervening evaluation')
                 rec.hit('value-reference:second-state')
             g3 = G(x.copy(), T)
@@ -461,9 +794,12 @@ def extra_clauses(case, rec, G, cs, cls, ids, n, T, g):
                     if all(gr is not None for gr in groups):
                         r = ref_gammas(cls, groups, xs, T)
                         fin = ga == ga
-                        rec.check(ga.shape == r.shape and within(ga[fin], r[fin], VALUE_RTOL), 'value-reference', f'{cls}/activity_coefficients',
-                                  f'{cls}.activity_coefficients(x_sub={xs.tolist()}, T={T}) = {ga.tolist()} but the published model (thermo.unifac) gives {r.tolist()}',
-                                  residual=relmax(ga[fin], r[fin]) if (ga.shape == r.shape and fin.any()) else None)
+                        if r is None:
+                            rec.hit('value-reference:reference-out-of-range')
+                        else:
+                            rec.check(ga.shape == r.shape and (within_ln if wp else within)(ga[fin], r[fin], VALUE_RTOL), 'value-reference', f'{cls}/{wp}activity_coefficients',
+                                      f'{cls}.activity_coefficients(x_sub={xs.tolist()}, T={T}) = {ga.tolist()} but the published model (thermo.unifac) gives {r.tolist()}',
+                                      residual=(relmax_ln if wp else relmax)(ga[fin], r[fin]) if (ga.shape == r.shape and fin.any()) else None)
                     rec.hit('sub-model-method:' + cls)
                 rec.hit('sub-model-method')
             except Exception as e:
@@ -487,7 +823,7 @@ def replay(case, rec):
 
 
 def run(rec, rng, tier, shard, nshards):
-    n = 1500 if tier == 'quick' else 20000
+    n = 2350 if tier == 'quick' else 31000          # 64 % of the cases come from the first pool (1500 / 20000 as before), 22 % from the wide pool, 14 % from the assigned-groups pool
     for i in range(n):
         case = gen_case(rng)
         try:
